@@ -21,7 +21,7 @@ RULE = ("(encoder level) for every setting of ET, DT and the register-addressed 
 ASSUMPTIONS = ["values whose encoding is the type's 'no value' sentinel (Integer 65535, Voltage/Current 6553.5, Long 2^32-1) are "
                "outside the readable domain: only the write part is asserted for them",
                "ES: only the register-addressed settings (eco-mode groups and switches; 011A/0239 over AA55 for v1, Modbus for v2)"]
-MUST = ["write_after_recovered_fragment_loss", "switch_seen_in_its_group", "refused_writes", "refused_rmw_reads", "byte_setting_already_holds_value", "dt_phase_pairs", "encoder_values", "e2e_writes", "e2e_readbacks", "byte_settings_rmw", "negative_values", "multi_register_writes",
+MUST = ["sensors_polled_before_settings", "write_after_recovered_fragment_loss", "switch_seen_in_its_group", "refused_writes", "refused_rmw_reads", "byte_setting_already_holds_value", "dt_phase_pairs", "encoder_values", "e2e_writes", "e2e_readbacks", "byte_settings_rmw", "negative_values", "multi_register_writes",
         "aa55_writes", "tcp_writes", "settings_covered"]
 EXHAUSTIVE = {"quick": False, "thorough": False}
 
@@ -197,6 +197,19 @@ def e2e_part(spec, part):
             inv.set_keep_alive(True)
             sim.delay = 0.6
         await inv.read_device_info()
+        if rnd.random() < 0.5:
+            # a polling application: the runtime data and the sensors whose ids coincide with setting ids (work_mode, battery_modules,
+            # at other registers than the settings) were read on this object before any setting is touched
+            try:
+                await inv.read_runtime_data()
+            except (ValueError, g.InverterError):
+                pass
+            for sid_ in sorted({x.id_ for x in inv.sensors()} & {x.id_ for x in inv.settings()}):
+                try:
+                    await inv.read_sensor(sid_)
+                except (ValueError, g.InverterError):
+                    pass
+            part.count("sensors_polled_before_settings")
         st = list(inv.settings())
         rnd.shuffle(st)
         for sn in st:
